@@ -251,7 +251,10 @@ class Ctx:
             self.violations.append({"what": what, "case": case, "tags": list(tags)})
         return True
 
-    def disagreement(self, what, case, theorem=None):
+    def disagreement(self, what, case, theorem=None, tags=()):
+        # on inputs covered by an open finding either behaviour (defective as modelled, or conforming) is accepted
+        if match_finding(self.findings, tags) is not None:
+            return
         if len(self.disagreements) < 50:
             self.disagreements.append({"what": what, "case": case, "theorem": theorem})
 
